@@ -342,10 +342,10 @@ def decide_obligation(ob, tier, pool=None):
     if ob.get("paths_truncated"):
         o.result, o.detail = C.UNDECIDED, "path enumeration truncated (more than 4096 decision vectors)"
         return o
-    if ob["name"].startswith(("c16_forward_vs_published", "c16_xyz_roundtrip")) or os.environ.get("PV_CANON") == "1":
+    if ob["name"].startswith(("c16_forward_vs_published", "c16_inverse_vs_published", "c16_xyz_roundtrip")) or os.environ.get("PV_CANON") == "1":
         from . import canon
         o.extra["dag_nodes_before_canonicalisation"] = len(ob["nodes"])
-        o.extra["canonicalisation_rules"] = canon.canonicalise(ob)
+        o.extra["canonicalisation_rules"] = canon.canonicalise(ob, rational=ob["name"].startswith("c16_inverse_vs_published") or os.environ.get("PV_CANON_RATIONAL") == "1")
         o.extra["canonicalisation_perturbation"] = "polynomial coefficients and constant exponents rounded to 12 significant digits (pv/canon.py)"
     if os.environ.get("PV_POW_REWRITE") == "1":   # experimental (DESIGN.md 9.4, C16): not used by any registered check
         from . import powrw
@@ -486,6 +486,26 @@ def decide_obligation(ob, tier, pool=None):
                 elif first != "unsat":
                     live.append(pp)
     o.extra["reachability_witness"] = next(iter(witness.values()), None)
+    # Differentials against a transcribed published model (C16): z3 proves the unchanged code in well under a second but, once a
+    # constant is wrong, runs into its cap looking for a model (the uninterpreted powers are then applied to different
+    # arguments). A cheap native look at a few sample points first: a goal that fails there at 0.9 x tolerance in f64 and in
+    # f32 is a replayed violation (same acceptance rule as for solver models) and is not sent to the solver; goals that do not
+    # fail at the sample points are decided by the solver as usual - the pre-pass never turns anything into a pass.
+    if ob["name"].startswith(("c16_forward_vs_published", "c16_inverse_vs_published")) and ob["vars"] and pending:
+        tried = 0
+        for pt in DE.sample_points(ob["vars"], 12, C.seed() + 2):
+            if not pending:
+                break
+            rp, err = replay(ob["name"], pt)
+            tried += 1
+            if rp is None or not (rp["f64"]["assume_ok"] and rp["f32"]["assume_ok"]):
+                continue
+            for gi, g in list(pending):
+                if rp["f64"]["goals"].get(g) is False and rp["f32"]["goals"].get(g) is False:
+                    results[g] = ("violation", f"inputs {dict(zip([x['name'] for x in ob['vars']], pt))} violate goal '{g}' natively in f64 and f32 "
+                                  f"(found by native evaluation at a sample point before the solver was asked) {rp['f64']['show']}", pt)
+                    pending.remove((gi, g))
+        o.extra["native_falsification_prepass_points"] = tried
     # phase 2: every feasible path x pending goal
     jobs = [(p, gi, gname) for p in live for gi, gname in pending
             if (isinstance(p["goals"][gi][1], str) and p["goals"][gi][1] != "true")
